@@ -202,4 +202,43 @@ REG = {
         "trusted_base": TB_COMMON,
         "assumptions": ["NOT covered: in-circuit hashing, Merkle verification, the recursive challenger, proof-of-work check, variable-degree-bits logic, witness-assignment routines, any outer prove/verify - a check omitted only in those parts of the circuit verifier is missed"],
     },
+    "C08": {
+        "families": [("S", "lookup")],
+        "explanation": (
+            "Bounded symbolic verification of mechanisms (DESIGN.md section 5, C08) on circuits with lookups built by the "
+            "real CircuitBuilder (narrow and standard configurations; one and two tables; table sizes below, equal to and "
+            "above the slot count; repeated, unused and partially filled rows): check_lookup_constraints (verifier) == "
+            "check_lookup_constraints_batch (prover) and the full vanishing expression with lookups agree; both == a "
+            "reference LogUp constraint list in protocol order; on the real witness (real generators, set_lookup_wires, "
+            "compute_lookup_polys with symbolic challenges) every constraint is 0 on every row; a looked pair outside the "
+            "table (or in another table) gives a non-zero final sum in closed form; slot arithmetic, placement, padding and "
+            "multiplicities of the lookup rows; and whether the constraints determine the running sums."),
+        "trusted_base": TB_COMMON + ["reference LogUp constraint list in symf/src/lookup.rs (oracle)"],
+        "assumptions": ["tables are concrete (u16 by type), looked-up inputs concrete; recursive twins of the lookup constraints not compared"],
+    },
+    "C12": {
+        "families": [("S", "merkle", None, r"^C12\.")],
+        "explanation": (
+            "Bounded symbolic verification of mechanisms (DESIGN.md section 5, C12) with the Poseidon permutation as a free "
+            "function symbol (ideal-hash model): MerkleTree::new on symbolic leaves (n = 1..16, every cap height, leaf "
+            "widths 1/4/5/9 incl. the hash_or_noop no-op path): cap == level-by-level reference, prove(i) verifies for every "
+            "i; binding: two accepted openings of the same cap at the same position coincide; every leaf element, sibling "
+            "lane and cap lane is pinned; acceptance at a mirrored position forces equal subtree digests; the same for "
+            "batch trees over several heights. Native replay on real trees with the real Poseidon."),
+        "trusted_base": TB_COMMON,
+        "assumptions": ["sequential maybe_rayon build (the harness builds plonky2 without the `parallel` feature): thread schedules are C19's subject and outside",
+                        "collision resistance is the ideal-hash idealisation; Keccak hasher outside"],
+    },
+    "C16": {
+        "families": [("S", "merkle", None, r"^C16\.")],
+        "explanation": (
+            "Bounded symbolic verification of mechanisms (DESIGN.md section 5, C16): decompress_merkle_proofs(compress_"
+            "merkle_proofs(..)) == the original proofs for real trees over symbolic leaves (heights 0..3, representative "
+            "index tuples incl. repeats, same pair, same coset); Proof::compress -> get_inferred_elements -> "
+            "CompressedProof::decompress returns the original proof field by field on four FRI shapes with real Merkle "
+            "trees over symbols, for index tuples with distinct indices, equal indices, same coset at layer 0 and collisions "
+            "only at deeper layers; the inferred element equals the verifier's folded value and is really dropped."),
+        "trusted_base": TB_COMMON,
+        "assumptions": ["verify_compressed end to end (challenge recomputation by hashing) is outside; challenges are seeded constants"],
+    },
 }
